@@ -492,6 +492,7 @@ def _flatten(*list_of_arrays):
     kwargs = dict(indexing="ij")
     grd = np.meshgrid(*list_of_arrays, **kwargs)
     array_of_tuples = np.array(list(zip(*[g.ravel() for g in grd])), dtype=object) # keep each label's own type
+    array_of_tuples = array_of_tuples.reshape(-1, len(list_of_arrays)) # also when there is no label at all
     assert array_of_tuples.shape[1] == len(list_of_arrays), "pb when reshaping: {} and {}".format(array_of_tuples.shape, len(list_of_arrays))
     assert array_of_tuples.shape[0] == np.prod([x.size for x in list_of_arrays]), "pb when reshaping: {} and {}".format(array_of_tuples.shape, np.prod([x.size for x in list_of_arrays]))
     return array_of_tuples
